@@ -634,7 +634,12 @@ pub fn run(e: &dyn Engine, o: &Opts) -> Report {
                     let min = minimise(e, &o.driver, &c.lines, if e.isolated() { 80 } else { 400 });
                     let imp = exec_impl(e, &min);
                     let mm = run_driver(&o.driver, e.name(), &model_lines(&min, &imp)).unwrap_or_default();
-                    let fd = first_diff(e, &min, &imp.resp, &mm).unwrap_or(0);
+                    // a disagreement that does not reproduce on the reduced case (timing-dependent) is kept as observed
+                    let (min, imp_resp, mm, fd) = match first_diff(e, &min, &imp.resp, &mm) {
+                        Some(fd) => (min, imp.resp, mm, fd),
+                        None => (c.lines.clone(), outcomes[k].resp.clone(), m.to_vec(), d),
+                    };
+                    let imp = Outcome { resp: imp_resp, ..Default::default() };
                     let blamed = e
                         .blame(
                             min.get(fd).map(|s| s.as_str()).unwrap_or(""),
